@@ -1,27 +1,44 @@
 """C19  Invalid input is refused with documented errors; nothing ill-formed is built.
 
-Two legs, one exception-boundary classifier (bcv/monitors/c19_boundary.py; decision from exception type + traceback only):
+Two legs, one exception-boundary classifier (bcv/monitors/c19_boundary.py; the decision uses the exception type and the
+traceback - innermost BioCantor frame, linecache - only, never the message):
 
  1. corruption matrix (bcv/gen/c19_matrix.py): for every constructor / derivation a valid argument set and, per argument,
-    each applicable corruption of the property's list.  Expectation derived from the docstrings / ``raise`` statements:
-      ctor.refuses           a documented check: the call must raise (a BioCantorException subclass, NotImplementedError, or
-                             an explicit / third-party ValueError / TypeError)
-      ctor.nothing-ill-formed  no documented check: the call may return, but then the returned object must satisfy the
-                             structural monitors (locmon.wellformed for locations, interval_problem for intervals)
-      ctor.exception-class   whatever is raised must not be an internal error
-      ctor.valid-baseline    counts the uncorrupted argument sets that were accepted (a refusal there is reported as
-                             INCONCLUSIVE harness error, not as a violation: the property does not speak about it)
- 2. API sweep (bcv/gen/c19_objects.py + bcv/monitors/c19_sweep.py): every public property / method (``inspect``; lru_cache
-    wrappers unwrapped) of valid objects of every class on every kind of parent, incl. the edge objects, called with typed
-    boundary arguments.
-      api.exception-class    no internal error escapes (key = exception type, file, function of the innermost BioCantor frame)
-      api.result-wellformed  every returned Location / interval (also inside lists, tuples, exhausted iterators) is well-formed
+    each applicable corruption of the property's list.  The expectation of every entry is derived from the docstrings /
+    ``raise`` statements of the source and quoted in the entry, never from observed behaviour.
+      ctor.refuses             documented check: the call must raise
+      ctor.exception-class     whatever a corrupted call raises must not be an internal error
+      ctor.nothing-ill-formed  no documented check: the call may return, but the returned object must then satisfy the
+                               structural monitors (locmon.wellformed / span for locations, interval_problem for intervals)
+      ctor.valid-baseline      the uncorrupted argument sets return well-formed objects (a *refusal* there is a harness
+                               error -> INCONCLUSIVE, not a violation: the property does not speak about it)
+      edge.answered            the edge requests the property names as legal (zero-length request at the 3' end, window ==
+                               length, an absent UTR, a CDS without a complete codon) are answered - with the documented
+                               value - and not refused
+ 2. API sweep (bcv/gen/c19_objects.py, bcv/monitors/c19_sweep.py): every public property / method found with ``inspect``
+    (lru_cache wrappers unwrapped), plus the data-model protocol each class defines (len/str/repr/hash/==/iter/</pickle),
+    the static constructors fed with the object's own export and the io.models round trip, on valid objects of every class
+    on every kind of parent (none, chromosome, chromosome without sequence, chunk covering / cutting / missing the object,
+    id-only, non-chromosome sequence) including the edge objects, with typed boundary arguments.
+      api.exception-class      no internal error escapes; key = (exception type, file, function) of the innermost BioCantor frame
+      api.result-wellformed    every returned Location / interval (also inside lists, tuples, exhausted iterators) is well-formed
 
-Latitude: (i) any documented exception type is accepted where a refusal is due - the property names the family, not the
-member; (ii) exception types outside both families (neither documented nor in the property's internal list) are counted
-as ``other`` and not flagged; (iii) an intronic CDS block is not a documented constructor check and is not in the matrix;
-(iv) ``Sequence.__getitem__`` follows the sequence protocol (IndexError out of range) and is only driven in range.
+Classifier: allowed = BioCantorException subclasses (the io exception modules derive from it), NotImplementedError,
+ValueError/TypeError raised by an explicit ``raise`` inside BioCantor or whose innermost frame is outside BioCantor;
+flagged = AttributeError, IndexError, KeyError, RecursionError, StopIteration, UnboundLocalError, ZeroDivisionError,
+AssertionError, and ValueError/TypeError whose innermost frame is a BioCantor line that is not a ``raise``.
+
+Latitude: (i) where a refusal is due any exception of the documented families is accepted - the property names the family,
+not the member; (ii) exception types of neither family (e.g. the schema library's ValidationError) are counted as ``other``
+and never flagged; (iii) an intronic CDS block is not a documented constructor check and is not in the matrix; (iv)
+``Sequence.__getitem__`` follows the sequence protocol (IndexError out of range ends iteration) and is driven in range only;
+(v) ``None`` is passed for a parameter only if its default is ``None`` ("Optional[int] = 60" is annotation sloppiness);
+(vi) methods with a parameter that cannot be typed from its annotation are skipped and counted in the evidence.
+
+Development aid (environment, not used by the MANIFEST commands): C19_LEGS=matrix|sweep restricts the legs.
 """
+import os
+
 from bcv.gen import c19_matrix as MX
 from bcv.gen import c19_objects as OBJ
 from bcv.monitors import c19_boundary as B
@@ -31,25 +48,121 @@ ID = "C19"
 LEVEL = "exploration"
 EXHAUSTIVE = False
 RULE = (
-    "corruption matrix: every (constructor or derivation, argument, corruption) triple of the property's list, complete; "
-    "API sweep: every public member (inspect) of fixed edge objects (CDS without a complete codon, full-length CDS / no UTR, "
-    "1-bp blocks, non-coding, empty bounded/unbounded collections, chunk windows that cover / cut / miss the object) and of "
-    "seeded random objects of every class on parents none / chromosome / chromosome without sequence / sequence chunk, with "
-    "typed boundary arguments (ints -1,0,1,len-1,len,len+1,start/end+-1,huge; edge intervals; every enum member). "
-    "Non-trivial = distinct (class, parent mode, edge tag, member, argument labels, outcome type)."
+    "corruption matrix: every (constructor or derivation, argument, corruption) triple of the property's list, complete "
+    "(one case each, expectation quoted from the source); API sweep: every public member (inspect) + protocol / static "
+    "constructor / io.models round-trip calls of fixed edge objects (CDS without a complete codon, full-length CDS / absent "
+    "UTRs, 1-bp and overlapping blocks, non-coding and unstranded intervals, empty bounded / unbounded / zero-width "
+    "collections, chunk windows that cover / cut / miss the object, odd parents) and of seeded random objects of every class "
+    "on parents none / chromosome / chromosome without sequence / sequence chunk, with typed boundary arguments (ints -1, 0, "
+    "1, len-1, len, len+1, start/end +-1, sequence length +-1, huge; edge intervals on same / other / no parent; every enum "
+    "member). Non-trivial = distinct (class, parent mode, edge tag, member, argument labels, outcome type)."
 )
-SCOPE = {"quick": {"NR": 260, "BUDGET": 28}, "thorough": {"NR": 4000, "BUDGET": 90}}
-FLOOR = {"quick": 3000, "thorough": 20000}
-REQUIRED_MONITORS = ["api.exception-class", "api.result-wellformed"]
-REACH = []
-REACH_REQUIRED = []
+SCOPE = {"quick": {"NR": 500, "BUDGET": 32}, "thorough": {"NR": 8000, "BUDGET": 100}}
+FLOOR = {"quick": 100000, "thorough": 400000}
+REQUIRED_MONITORS = ["ctor.refuses", "ctor.exception-class", "ctor.nothing-ill-formed", "ctor.valid-baseline", "edge.answered",
+                     "api.exception-class", "api.result-wellformed"]
+_OV = "inscripta.biocantor.util.object_validation:ObjectValidation."
+REACH = [_OV + x for x in ("require_location_has_parent", "require_location_has_parent_with_sequence", "require_parent_has_location",
+                           "require_parent_has_parent", "require_parent_has_parent_with_location", "require_parents_equal_except_location",
+                           "require_parents_equal_except_location_and_sequence", "require_locations_overlap", "require_object_has_type")] + [
+    "inscripta.biocantor.location.location:Location.scan_windows",
+    "inscripta.biocantor.location.strand:Strand.assert_directional",
+    "inscripta.biocantor.location.location_impl:SingleInterval.__init__",
+    "inscripta.biocantor.location.location_impl:CompoundInterval.__init__",
+    "inscripta.biocantor.location.location_impl:CompoundInterval.from_single_intervals",
+    "inscripta.biocantor.location.location_impl:SingleInterval.shift_position",
+    "inscripta.biocantor.location.location_impl:SingleInterval.extend_absolute",
+    "inscripta.biocantor.location.location_impl:CompoundInterval.extend_absolute",
+    "inscripta.biocantor.location.location_impl:CompoundInterval.relative_interval_to_parent_location",
+    "inscripta.biocantor.parent.parent:Parent.__init__",
+    "inscripta.biocantor.parent.parent:_unique_value_or_none",
+    "inscripta.biocantor.sequence.sequence:Sequence.__init__",
+    "inscripta.biocantor.sequence.sequence:Sequence.validate_alphabet",
+    "inscripta.biocantor.gene.cds:CDSInterval.__init__",
+    "inscripta.biocantor.gene.transcript:TranscriptInterval.__init__",
+    "inscripta.biocantor.gene.feature:FeatureInterval.__init__",
+    "inscripta.biocantor.gene.feature:FeatureIntervalCollection.__init__",
+    "inscripta.biocantor.gene.gene:GeneInterval.__init__",
+    "inscripta.biocantor.gene.variants:VariantInterval.__init__",
+    "inscripta.biocantor.gene.variants:VariantIntervalCollection.__init__",
+    "inscripta.biocantor.gene.collections:AnnotationCollection.__init__",
+    "inscripta.biocantor.gene.collections:AnnotationCollection.query_by_position",
+    "inscripta.biocantor.gene.interval:AbstractInterval.initialize_location",
+    "inscripta.biocantor.gene.interval:AbstractInterval.liftover_location_to_seq_chunk_parent",
+    "inscripta.biocantor.gene.interval:AbstractFeatureIntervalCollection._find_primary_feature",
+    "inscripta.biocantor.io.models:ParentModel.to_parent",
+]
+REACH_REQUIRED = REACH
 ASSUMPTIONS = ["exception classes are decided from the exception type and the traceback (innermost BioCantor frame, linecache) only",
-               "arguments are of the annotated parameter types; methods with untypable parameters are skipped (counted in evidence)"]
-WATCHDOG = {"quick": 1500, "thorough": 4 * 3600}
+               "arguments are of the annotated parameter types; methods with untypable parameters are skipped (counted in evidence)",
+               "structural monitors: bcv/monitors/locmon.py (shared with C02) and c19_boundary.interval_problem"]
+WATCHDOG = {"quick": 2400, "thorough": 6 * 3600}
+
+
+def _legs():
+    return set(os.environ.get("C19_LEGS", "matrix,sweep").split(","))
 
 
 def selftest():
-    pass
+    """Classifier self-test on synthetic tracebacks (code compiled under a virtual file name inside the tree under test, so that
+    nothing of BioCantor's own checks is relied on) plus the claim that the io exception modules derive from BioCantorException."""
+    import linecache
+
+    from bcv import env
+    from bcv.core import HarnessError
+
+    fname = os.path.join(env.REPO, "inscripta", "biocantor", "_c19_selftest_virtual.py")
+    src = ("import json\n"
+           "def explicit():\n"
+           "    raise ValueError('refused')\n"
+           "def implicit():\n"
+           "    return next(None)\n"
+           "def implicit_value():\n"
+           "    return min(())\n"
+           "def internal():\n"
+           "    return [][0]\n"
+           "def outside():\n"
+           "    return json.loads('{')\n"
+           "def stop():\n"
+           "    return next(iter(()))\n"
+           "def other():\n"
+           "    raise RuntimeError('x')\n"
+           "def notimpl():\n"
+           "    raise NotImplementedError\n")
+    linecache.cache[fname] = (len(src), None, src.splitlines(True), fname)
+    ns = {}
+    exec(compile(src, fname, "exec"), ns)
+    want = {"explicit": "explicit", "implicit": "IMPLICIT", "implicit_value": "IMPLICIT", "internal": "INTERNAL", "outside": "outside",
+            "stop": "INTERNAL", "other": "other", "notimpl": "documented"}
+    try:
+        for fn, verdict in want.items():
+            try:
+                ns[fn]()
+            except Exception as e:  # noqa: BLE001
+                got = B.classify_exception(e)
+                if got[0] != verdict or got[1][2] != fn:
+                    raise HarnessError(f"classifier self-test: {fn} classified {got[:2]}, expected {verdict}")
+            else:
+                raise HarnessError(f"classifier self-test: {fn} did not raise")
+    finally:
+        linecache.cache.pop(fname, None)
+    from inscripta.biocantor.exc import BioCantorException, InvalidPositionException
+    from inscripta.biocantor.io.exc import InvalidInputError
+    from inscripta.biocantor.io.genbank.exc import GenBankParserError
+    from inscripta.biocantor.io.gff3.exc import GFF3MissingSequenceNameError
+
+    for k in (InvalidPositionException, GFF3MissingSequenceNameError, GenBankParserError, InvalidInputError):
+        if not issubclass(k, BioCantorException):
+            raise HarnessError(f"{k.__name__} does not derive from BioCantorException: the documented family must be widened")
+    try:
+        raise InvalidPositionException("x")
+    except InvalidPositionException as e:
+        if B.classify_exception(e)[0] != "harness":      # no BioCantor frame on the stack
+            raise HarnessError("classifier self-test: frame-less exception not recognised as harness-side")
+    names = MX.names()
+    if len(set(names)) != len(names):
+        dup = sorted({n for n in names if names.count(n) > 1})
+        raise HarnessError(f"duplicate matrix entry names: {dup[:5]}")
 
 
 def cases(spec, ctx):
@@ -57,15 +170,17 @@ def cases(spec, ctx):
     sc = SCOPE[ctx.tier]
     import random
 
-    for idx, name in enumerate(MX.names()):
-        if idx % n == i:
-            yield {"kind": "matrix", "name": name}
-
-    rng = random.Random(f"C19-objects:{ctx.seed}")
-    for idx, case in enumerate(OBJ.object_cases(rng, sc["NR"])):
-        if idx % n == i:
-            case["budget"] = sc["BUDGET"]
-            yield case
+    legs = _legs()
+    if "matrix" in legs:
+        for idx, name in enumerate(MX.names()):
+            if idx % n == i:
+                yield {"kind": "matrix", "name": name}
+    if "sweep" in legs:
+        rng = random.Random(f"C19-objects:{ctx.seed}")
+        for idx, case in enumerate(OBJ.object_cases(rng, sc["NR"])):
+            if idx % n == i:
+                case["budget"] = sc["BUDGET"]
+                yield case
 
 
 _MATRIX = {}
@@ -80,7 +195,7 @@ def run_matrix(case, ctx):
     if name not in _MATRIX:
         raise HarnessError(f"unknown matrix entry {name}")
     _, must, doc, thunk, post = _MATRIX[name]
-    ctor, arg, corr = (name.split("/") + ["", ""])[:3]
+    ctor = name.split("/")[0]
     ctx.note(("matrix", name), klass="matrix-" + ("valid" if must is None else "legal-edge" if must == "legal" else "documented-check" if must else "undocumented-check"))
     res, exc = ctx.call(SW.guarded, thunk)
     if exc is not None:
@@ -136,5 +251,34 @@ def run_case(case, ctx):
     raise HarnessError(f"unknown kind {case['kind']}")
 
 
+# ---------------------------------------------------------------------------------------------------------------
+# mechanistic classifiers of recorded findings (used only if the lead records a finding instead of applying the
+# proposed fix; each predicate re-derives the mechanism from the stored case, never from hashes / seeds / messages)
+# ---------------------------------------------------------------------------------------------------------------
+def _empty_unbounded_collection(case):
+    """The documented-legal empty AnnotationCollection for which no bounds can be inferred: no children, no start/end,
+    and a parent that has no chromosome-typed ancestor carrying a location (none / chromosome without sequence / id only)."""
+    if case.get("kind") != "sweep" or case.get("cls") != "coll":
+        return False
+    sp = case.get("spec") or {}
+    if sp.get("genes") or sp.get("fcolls") or sp.get("variants") or sp.get("start") is not None or sp.get("end") is not None:
+        return False
+    return (case.get("parent") or {}).get("mode") in ("none", "chrom-noseq", "bare-id", None)
+
+
 def classify(v):
+    d = v.get("detail") or {}
+    case = v.get("case") or {}
+    fr = d.get("frame") or {}
+    if v["monitor"] == "api.exception-class" and d.get("exception") == "AttributeError" and _empty_unbounded_collection(case) \
+            and fr.get("file") in ("inscripta/biocantor/gene/collections.py", "inscripta/biocantor/gene/interval.py"):
+        # K9: such a collection never gets start / end / bin attributes; everything that reads them dies
+        return "K9-empty-unbounded-annotation-collection-has-no-start-end"
+    if v["monitor"] == "api.exception-class" and d.get("exception") == "AttributeError" and fr.get("func") in ("_query_by_position", "_optimized_query_by_position") \
+            and case.get("cls") == "coll" and (case.get("spec") or {}).get("variants"):
+        # same root cause as proposed_fixes/C09-variant-collection-is-coding.diff: coding_only=True reads child.is_coding,
+        # which VariantIntervalCollection does not define
+        labels = d.get("args") or []          # argument labels in parameter order: start, end, coding_only, ...
+        if d.get("member") == "AnnotationCollection.query_by_position" and labels[2:3] == ["T"]:
+            return "C09-variant-collection-has-no-is-coding"
     return None
